@@ -425,6 +425,38 @@ def run(tier, seed, replay=None):
             corr_bad += {'what': 'L1: %s differs from the exact model: %s vs %s' % (kind, want.tolist(), got.tolist()), 'op': kind,
                         'args': O.spec_json(x) if kind == 'center' else {'order': x['order'], 'knots': [str(v) for v in x['knots']], 'periodic': x['periodic']}}
     dist['op']['L1 comparisons'] = nl1
+    # ---- curves with straight legs (zero acceleration: the Frenet frame is completed by a helper direction): polylines and
+    # order-3 curves with collinear control triples, several parameters in ONE call, legs along the coordinate axes included
+    # (the helper direction depends on the leg); every frame must be finite and orthonormal and equal to the single-point call
+    from splipy import curve_factory as cf_
+    for it in range(reps):
+        npt = rng.randint(3, 6)
+        pts_ = [np.array([rng.randint(-3, 3) for _ in range(3)], dtype=float)]
+        while len(pts_) < npt:
+            step = rng.choice([np.array(v_, dtype=float) for v_ in ((0, 0, 2), (0, 0, -1), (1, 0, 0), (0, 3, 0), (1, 1, 0), (1, -2, 2), (0, 1, 1))])
+            if len(pts_) < 2 or np.linalg.norm(np.cross(step, pts_[-1] - pts_[-2])) > 1e-9 or np.dot(step, pts_[-1] - pts_[-2]) > 0:
+                pts_.append(pts_[-1] + step)
+        try:
+            crv = cf_.polygon(pts_)
+            ts = [crv.start(0) + (crv.end(0) - crv.start(0)) * (2 * i_ + 1) / (2.0 * (npt - 1)) for i_ in range(npt - 1)]
+            rng.shuffle(ts)
+            args = dict(points=[p_.tolist() for p_ in pts_], t=ts)
+            nontriv.add(C.case_hash(args))
+            T = np.asarray(crv.tangent(ts)).reshape(len(ts), 3)
+            Bn = np.asarray(crv.binormal(ts)).reshape(len(ts), 3)
+            Nn = np.asarray(crv.normal(ts)).reshape(len(ts), 3)
+            count('frenet on straight legs', measure='frenet')
+            for i in range(len(ts)):
+                M = np.array([T[i], Nn[i], Bn[i]])
+                if not np.all(np.isfinite(M)) or np.max(np.abs(M @ M.T - np.eye(3))) > 1e-9:
+                    fail('frenet', dict(args, at=ts[i]), 'tangent, normal, binormal on a straight leg are not a finite orthonormal frame: %s' % M.tolist())
+                    break
+                B1 = np.asarray(crv.binormal(ts[i])).reshape(-1)
+                if not np.allclose(B1, Bn[i], atol=1e-9):
+                    fail('frenet', dict(args, at=ts[i]), 'the binormal depends on which other parameters are evaluated in the same call: %s alone, %s in the list' % (B1.tolist(), Bn[i].tolist()))
+                    break
+        except Exception as e:  # noqa
+            fail('frenet', dict(points=[p_.tolist() for p_ in pts_]), 'frame on straight legs raised %s' % type(e).__name__)
     # ---- planar surfaces of ANY shape (random nets fold over: the Jacobian changes sign): the area is a property of the point set
     # traced with multiplicity, so the surface lying in the plane z = 0 of 3-space (and then moved rigidly) has the same area.
     # Both routes use the same Gauss points, hence agreement to rounding, not to quadrature accuracy
